@@ -1157,9 +1157,11 @@ CWD_Q = re.compile(r'^(os\.(getcwd|getcwdb|getpid|getppid|getlogin|uname|getuid|
 LOCALE_Q = re.compile(r'^(locale\.\w+|sys\.(getdefaultencoding|getfilesystemencoding|getfilesystemencodeerrors)|os\.(device_encoding|fsencode|fsdecode)|'
                       r'time\.(tzset))$')
 LISTDIR_Q = re.compile(r'^(os\.(listdir|scandir|walk|fwalk)|glob\.(glob|iglob))$')
-ATTR_READS = {'os.environ': 'REnviron', 'os.environb': 'REnviron', 'sys._xoptions': 'RPlatform', 'sys.platform': 'RPlatform',
+ATTR_READS = {'sys.argv': 'RInterp', 'sys.version': 'RInterp', 'sys.version_info': 'RInterp', 'sys.hexversion': 'RInterp',
+              'sys.implementation': 'RInterp', 'sys.modules': 'RInterp', 'sys.warnoptions': 'RInterp', 'sys.orig_argv': 'RInterp',
+              'sys.flags': 'RInterp','os.environ': 'REnviron', 'os.environb': 'REnviron', 'sys._xoptions': 'RPlatform', 'sys.platform': 'RPlatform',
               'os.name': 'RPlatform', 'os.linesep': 'RPlatform', 'sys.byteorder': 'RPlatform', 'sys.maxsize': 'RPlatform',
-              'sys.executable': 'RPlatform', 'sys.prefix': 'RPlatform', 'sys.flags': 'RPlatform', 'sys.path': 'REnviron',
+              'sys.executable': 'RPlatform', 'sys.prefix': 'RPlatform', 'sys.path': 'REnviron',
               'time.tzname': 'RLocale', 'time.timezone': 'RLocale', 'time.altzone': 'RLocale', 'time.daylight': 'RLocale',
               'sys.stdout.encoding': 'RLocale', 'sys.stdin.encoding': 'RLocale'}
 BINARY_OPENERS = re.compile(r'^(gzip|bz2|lzma|tarfile|zipfile|shelve|dbm|wave|webbrowser|os|urllib\.request)\.')
@@ -1201,6 +1203,10 @@ def detect_read(node: ast.AST, alias: typing.Dict[str, str], owner_fn: typing.Op
             return 'RMtime'
         if q in ('open', 'io.open', 'codecs.open') and _text_open_without_encoding(node, 1):
             return 'RLocale'
+        if q == 'dir' and len(node.args) == 1 and (qual(node.args[0], alias) or '') in ('builtins', '__builtins__'):
+            return 'RInterp'                          # what is in builtins depends on how the interpreter was started (site)
+        if q in ('globals', 'locals', 'vars') and not node.args:
+            return None
         if q == 'id':
             return 'RRandom'                          # object identity = address
         if q == 'hash' and owner_fn != '__hash__':
@@ -1233,6 +1239,8 @@ def detect_read(node: ast.AST, alias: typing.Dict[str, str], owner_fn: typing.Op
             return ATTR_READS[q]
         return None
     if isinstance(node, ast.Name) and isinstance(node.ctx, ast.Load):
+        if node.id == '__file__':
+            return 'RInterp'                          # where the package is installed
         q = alias.get(node.id)
         if q in ATTR_READS:
             return ATTR_READS[q]                      # `from os import environ` ... environ
@@ -1252,6 +1260,54 @@ def _diagnostic_only(par: typing.Dict[int, ast.AST], node: ast.AST) -> bool:
             if isinstance(par.get(id(p)), ast.Raise):
                 return True
         cur = p
+
+
+SITE_NAMES = ('copyright', 'credits', 'exit', 'help', 'license', 'quit')
+
+
+def classify_interp_read(trees, pars, rel: str, node: ast.AST) -> str:
+    """interpreter state.
+       dir(builtins) in the assignment of PyLanguage.PYTHON_RESERVED_IDENTIFIERS: RdBuiltinsClosed when the same expression adds the
+         six names `site` injects (so the list is the same under python -S / in a frozen program), RdBuiltinsSiteDependent
+         otherwise (known finding F-PY-BUILTINS-SITE: accounted for in the model's words only as a named quirk)
+       __file__ reduced to .name / .parent used to locate packaged resources; sys.version_info in a comparison; anything that only
+         feeds a logger / raise                                                  -> RdReduced / RdCompareOnly / RdDiagnostic
+       else RdUnknown"""
+    par = pars[rel]
+    if isinstance(node, ast.Call):
+        cur = node
+        while cur is not None and not isinstance(cur, (ast.Assign, ast.AnnAssign)):
+            cur = par.get(id(cur))
+        if cur is not None and 'PYTHON_RESERVED_IDENTIFIERS' in ast.unparse(cur.targets[0] if isinstance(cur, ast.Assign) else cur.target):
+            src = ast.unparse(cur.value)
+            return 'RdBuiltinsClosed' if all(repr(n) in src for n in SITE_NAMES) else 'RdBuiltinsSiteDependent'
+        return 'RdUnknown'
+    cur = node
+    while True:
+        p = par.get(id(cur))
+        if p is None:
+            return 'RdUnknown'
+        if isinstance(p, ast.Compare):
+            return 'RdCompareOnly'
+        if isinstance(p, ast.Attribute) and p.value is cur:
+            if p.attr in PATH_REDUCERS or p.attr in ('major', 'minor'):
+                return 'RdReduced' if p.attr in PATH_REDUCERS else 'RdCompareOnly'
+            cur = p
+            continue
+        if isinstance(p, ast.Subscript) and p.value is cur:
+            cur = p
+            continue
+        if isinstance(p, ast.Call) and p.func is not cur:
+            if _is_sink_call(p) or isinstance(par.get(id(p)), ast.Raise):
+                return 'RdDiagnostic'
+            if (qual(p.func, import_aliases(trees[rel])) or '').split('.')[-1] in ('Path', 'PurePath', 'dirname', 'basename', 'str'):
+                cur = p
+                continue
+            return 'RdUnknown'
+        if isinstance(p, ast.Call) and p.func is cur:
+            cur = p
+            continue
+        return 'RdUnknown'
 
 
 def _enclosing_fn(par: typing.Dict[int, ast.AST], node: ast.AST) -> typing.Optional[ast.FunctionDef]:
@@ -1377,6 +1433,8 @@ def ambient_reads(trees: typing.Dict[str, ast.Module]) -> typing.Tuple[typing.Li
                     continue
             elif _diagnostic_only(pars[rel], node):
                 site = 'RdDiagnostic'
+            elif kind == 'RInterp':
+                site = READ_SITE_MAP.get((rel, fn_name, 'RPlatform')) or classify_interp_read(trees, pars, rel, node)
             elif kind == 'RListdir':
                 site = classify_listing_sink(trees, pars, rel, node)
             elif kind == 'RLocale':
@@ -1392,7 +1450,8 @@ def ambient_reads(trees: typing.Dict[str, ast.Module]) -> typing.Tuple[typing.Li
     for node in ast.walk(f):
         if isinstance(node, ast.Assign) and len(node.targets) == 1 and ast.unparse(node.targets[0]) == 'self._env.now_utc':
             assigned = ast.unparse(node.value) in ('datetime.datetime.utcnow()', 'datetime.datetime.now(datetime.timezone.utc)',
-                                                  'datetime.datetime.now(datetime.UTC)')
+                                                  'datetime.datetime.now(datetime.UTC)',
+                                                  'datetime.datetime.now(datetime.timezone.utc).replace(tzinfo=None)')
     n_clock_in_gen = sum(1 for k, s, _ in out if s == 'RdNowUtc')
     clock_ok = clock_ok and assigned and n_clock_in_gen == 1
     # resolve() in filter_type_to_include_path must sit under `if resolve:`
